@@ -1,7 +1,7 @@
 (* C08 — Fragments and mixins are honoured as reusable base types.
    Property theorems only; proofs live in Proofs/FragmentsP.v. *)
 From Coq Require Import List String Bool Permutation.
-From AC Require Import Model.Prune Model.Fragments Proofs.PruneP Proofs.FragmentsP.
+From AC Require Import Model.Prune Model.Fragments Proofs.PruneP Proofs.FragmentsP Proofs.FragmentsResultsP.
 Import ListNotations.
 Local Open Scope string_scope.
 
@@ -109,6 +109,20 @@ Theorem C08_top_graph_realised : forall fuel0 fuel sch frags g snake fd cs s',
     c_bfrags c = sort_uniq (succs (rgraph g) (fr_name fd)).
 Proof. exact top_graph_realised. Qed.
 Print Assumptions C08_top_graph_realised.
+
+(* the two models of _resolve_selection_set agree: on the shared encoding (tr_schema / tr_frag / tr_sel into
+   Gql.Schema), Model/Results.v's resolve (C01: field nodes + bases) returns exactly the base list that
+   Model/Fragments.v's resolve (C08: bases + unpacked names) returns - for every selection set, every nesting of
+   inline fragments and fragment chains, conditional or not.  wf_doc: fragment types and the interfaces listed by
+   objects are types of the schema (Results.v raises KeyError otherwise). *)
+Theorem C08_resolve_agrees_with_results : forall sch frags, wf_doc sch frags ->
+  forall f under ss root unp fields mix unp',
+  resolve f sch frags under ss root unp = Some (fields, mix, unp') -> known sch root ->
+  forall F, f <= F ->
+  exists fns, AC.Model.Results.resolve F (tr_schema sch) (map tr_frag frags) under (map tr_sel ss) root
+              = AC.Model.Results.Ok (fns, mix).
+Proof. exact resolve_agrees. Qed.
+Print Assumptions C08_resolve_agrees_with_results.
 
 (* the listed fragment bases never contain a fragment that another fragment of the resolved set - in
    particular another listed base, earlier or later - inherits: `class X(A, B)` with B a subclass of A
